@@ -454,6 +454,46 @@ class Unit:
         self.raw("\n")
         return it
 
+    DERIVED_SIG = {
+        "Clone": ("clone", "fn clone(&self) -> (r: Self) ensures r == *self"),
+        "PartialEq": ("eq", "fn eq(&self, other: &Self) -> (r: bool) ensures r == (*self == *other)"),
+    }
+
+    def derived(self, src, qual, trait, modname, path=None):
+        """Structural `Clone` / `PartialEq` of a real struct or enum.  E1 drops `#[derive(..)]`, so the
+        structural meaning is supplied as an assumed impl -- but ONLY while the real item still
+        derives the trait.  If it does not, the hand-written `impl Trait for T` of the same file is
+        extracted instead and its real body is checked against the contract the derive used to give
+        (`r == *self` / `r == (*self == *other)`); if there is neither, the unit is undecided."""
+        hits = [x for x in src._walk(src.index["items"]) if x.get("qual") == qual and x["kind"] in ("struct", "enum")]
+        if len(hits) != 1:
+            raise Undecided(f"lost anchor: {src.rel}: struct/enum {qual} resolves to {len(hits)} places")
+        it = hits[0]
+        ders = set()
+        for a in src.attrs_in(it["span"][0], it["span"][1]):
+            if a["name"].split("::")[-1] == "derive":
+                ders |= set(re.findall(r"\w+", src.text(*a["span"]))) - {"derive"}
+        meth, sig = self.DERIVED_SIG[trait]
+        ty = path or qual
+        if trait in ders:
+            self.raw(f"impl {trait} for {ty} {{   // the real item derives {trait}: structural (assumed, listed)\n"
+                     f"    #[verifier::external_body]\n    {sig} {{ unimplemented!() }}\n}}\n")
+            self._log("E1", src, it["span"][0], f"#[derive({trait})] on {qual}", "structural impl (assumed)")
+            return
+        key = f"{modname}::{qual}::{meth}"
+        spec = FnSpec(key)
+        spec.returns = "r"
+        text = "r == *self" if trait == "Clone" else "r == (*self == *other)"
+        spec.ensures = [Clause("ensures", f"{trait.lower()}_means_what_the_derive_meant", [], text,
+                               f"vlib/core.py derived(): {qual} no longer derives {trait}")]
+        self.specs[key] = spec
+        im = src.find(qual, "impl", trait=trait)
+        f = src.find_fn_in(im, meth)
+        pn = [p_ for p_ in re.findall(r"(\w+)\s*:", src.text(f["sig"]["paren_open"], f["sig"]["paren_close"])) if p_ != "self"] if "paren_open" in f["sig"] else []
+        if trait == "PartialEq" and pn and pn[0] != "other":
+            spec.ensures[0].text = f"r == (*self == *{pn[0]})"
+        self.impl(src, qual, [meth], modname, trait=trait, header=(f"impl {trait} for {ty}" if path else None))
+
     def item_range_sha(self, src, it):
         s, e = it["span"]
         return hashlib.sha256(src.data[s:e]).hexdigest()
